@@ -93,10 +93,11 @@ Definition open_log (l : bytes) : (bytes * list tx) + lerr :=
       end
   end.
 
-(* Wal::append: None = refused (WalRecordTooLarge) *)
+(* Wal::append: None = refused (encode_body error / WalRecordTooLarge) *)
 Definition append (l : bytes) (r : wrec) : option bytes :=
   let body := encode_body r in
-  if (wal_append_checks_max =? 1) && (wal_max_record_len <? len body) then None
+  if rec_too_deep r then None                      (* encode_body fails *)
+  else if (wal_append_checks_max =? 1) && (wal_max_record_len <? len body) then None
   else Some (l ++ frame_body body).
 
 Fixpoint append_all (l : bytes) (rs : list wrec) : option bytes :=
